@@ -6,6 +6,7 @@ import (
 	"encoding/json"
 	"fmt"
 	"io"
+	"os"
 	"path/filepath"
 	"sort"
 	"strconv"
@@ -36,6 +37,7 @@ type PatSpec struct {
 }
 
 type PackCase struct {
+	HostNodes []Node `json:",omitempty"` // objects at the chroot-relative source path on the HOST side (outside /w): never part of the model's world
 	Op       string // tar | tar-chroot
 	Src      string
 	Root     string
@@ -298,6 +300,19 @@ func runPackJob(j *Job, res *JobResult) {
 	if err := pkSubSecond(c.Nodes); err != nil {
 		res.Out, res.Err = "setup", err.Error()
 		return
+	}
+	for _, hn := range c.HostNodes {
+		top := "/" + strings.Split(strings.TrimPrefix(hn.Path, "/"), "/")[0]
+		defer os.RemoveAll(top)
+		os.MkdirAll(filepath.Dir(hn.Path), 0o755)
+		switch hn.Kind {
+		case 'd':
+			os.MkdirAll(hn.Path, 0o755)
+		case 's':
+			os.Symlink(hn.Target, hn.Path)
+		default:
+			os.WriteFile(hn.Path, []byte(hn.Data), 0o644)
+		}
 	}
 	b, err := runPackOnce(&c)
 	// C09 reproducibility: the same call once more on the unchanged tree
@@ -659,6 +674,26 @@ func genPackCase(r *Rng, family string) *PackCase {
 		c.Chown = &[2]int{r.pickID(), r.pickID()}
 	}
 	c.Overlay = r.chance(1, 5)
+	// the host side of the jail: something unrelated lives, on the host, at the path the source has INSIDE the
+	// root (the host's /src is not the root's /src). A producer that looks before it is jailed sees it.
+	if c.Op == "tar-chroot" && r.chance(1, 3) {
+		cs, cr := filepath.Clean(c.Src), filepath.Clean(c.Root)
+		if strings.HasPrefix(cs, cr+"/") {
+			rel := strings.TrimPrefix(cs, cr)
+			top := strings.Split(strings.TrimPrefix(rel, "/"), "/")[0]
+			reserved := map[string]bool{"w": true, "proc": true, "dev": true, "usr": true, "lib": true, "lib64": true, "bin": true, "sbin": true, "opt": true, "root": true, "etc": true, "tmp": true, "sys": true, "": true, "..": true, ".": true}
+			if !reserved[top] && !strings.Contains(rel, "..") {
+				switch r.intn(3) {
+				case 0:
+					c.HostNodes = []Node{{Path: rel, Kind: 'r', Data: "CANARY-host-side"}}
+				case 1:
+					c.HostNodes = []Node{{Path: rel, Kind: 's', Target: "/w/secret"}}
+				default:
+					c.HostNodes = []Node{{Path: rel, Kind: 'd'}, {Path: rel + "/CANARY-host-file", Kind: 'r', Data: "CANARY-host-side"}}
+				}
+			}
+		}
+	}
 	return c
 }
 
